@@ -31,7 +31,18 @@ def cleanup_scratch():
 
 
 def fresh_dir(prefix='c'):
-    return tempfile.mkdtemp(prefix=prefix, dir=scratch_root())
+    """An empty scratch directory.  Path names are REUSED (the lowest free `<prefix>-<k>`): consecutive cases of a check
+    then run under the same path and crop name, so anything the library keeps per path or name across calls within
+    one process (a cache that is never invalidated) meets a different crop the next time."""
+    root = scratch_root()
+    for k in range(10000):
+        d = os.path.join(root, f'{prefix}-{k}')
+        try:
+            os.mkdir(d)
+            return d
+        except FileExistsError:
+            continue
+    return tempfile.mkdtemp(prefix=prefix, dir=root)
 
 
 def rm(path):
